@@ -12,6 +12,12 @@ PROP = dict(
                 'full, block and random-access reader; the readers only see an '
                 'exact-size copy of the bytes the encoder reported and write '
                 'into exact-size outputs (AddressSanitizer redzones / canaries); '
+                'where each buffer lies is generated with the case: outputs and '
+                'encoder sources start 0..3 elements, the encoded copy and the '
+                'encoder destination 0..15 bytes after a 16-byte boundary '
+                '(outputs and the encoded copy still end at the redzone), and '
+                'block readers also decode into out+start of one full-size '
+                'array (generated windows, streaming in generated block sizes); '
                 'sanitised, pinned-release and (thorough) SIMD-enabled builds; '
                 'plus a deterministic sweep of all table lengths'),
     level_note=('the oracle is the input array itself; trusts the array '
@@ -20,12 +26,17 @@ PROP = dict(
                 'and the compilers; lengths above 67825 are not generated'),
     rule=('case = (codec, encoder variant / threshold / meta mode, array '
           'descriptor: length class straddling the table lengths x shape, '
-          'optional PFOR marker plant, dictionary prefix, BP128 block '
-          'reference, reader indices and windows); non-trivial = count >= 2 '
+          'buffer placement: byte offset 0..15 of the encoded copy and of '
+          'the encoder destination, element offset 0..3 of the encoder source '
+          'and of every output buffer, streaming block size 1..255 or whole '
+          'array, optional PFOR marker plant, dictionary prefix, BP128 block '
+          'reference and 1..4 consecutive blocks, reader indices and '
+          'windows); non-trivial = count >= 2 '
           'and (max element needs >= 2 bytes, or count within +-1 of a table '
           'length, or a random-access/block reader ran, or PFOR had >= 1 '
           'exception, or BP128 had >= 2 blocks); distinct by hash of (codec, '
-          'variant, codec parameters, array contents)'),
+          'variant, codec parameters, array contents) - placement is not '
+          'part of the hash, so two placements of one array count once'),
     quick=dict(configs=['asan', 'rel'], cases=2500000, maxlen=200),
     thorough=dict(configs=['asan', 'rel', 'simd'], cases=5000000, maxlen=400,
                   fuzz_s=120, setmax=1 << 23),
@@ -60,8 +71,30 @@ PROP = dict(
          'rd.bp128.deltaDecode64', 'rd.bp128.decodeBlock32',
          'rd.bp128.deltaDecodeBlock32',
          'bp128.blocks>=2', 'bp128.partialLast', 'bp128.fullLast',
-         'bp128.width64', 'bp128.width32']),
+         'bp128.width64', 'bp128.width32'] +
+        # buffer placement (generated dimension of every case)
+        ['place.generated', 'place.allZero',
+         'align.out.0mod16', 'align.out.8mod16', 'align.out.4mod16',
+         'align.out.12mod16', 'align.src.0mod16', 'align.src.8mod16',
+         'align.src.4mod16', 'align.src.12mod16'] +
+        ['align.in.%d' % k for k in range(16)] +
+        ['align.dst.%dmod16' % k for k in range(16)] +
+        ['%s.%s.%s' % (k, b, a) for k in _CODECS
+         for b in ('out', 'in', 'src') for a in ('on16', 'off16')] +
+        ['for.batchDecode.n>=16.out.on16', 'for.batchDecode.n>=16.out.off16',
+         'for.decodeBlock.z>=16.out.on16', 'for.decodeBlock.z>=16.out.off16',
+         'rd.for.decodeBlock.inPlace',
+         'for.decodeBlock.inPlace.z>=16.out.on16',
+         'for.decodeBlock.inPlace.z>=16.out.off16',
+         'for.stream.oneBlock', 'for.stream.oddBlocks',
+         'for.stream.evenBlocks', 'for.stream.z>=16.out.off16',
+         'rd.bp128.block.inPlace', 'bp128.block.blocks=1',
+         'bp128.block.blocks=2', 'bp128.block.blocks=4']),
     assumptions=COMMON_ASSUME + [
+        'every buffer handed to the library is naturally aligned for its '
+        'element type (uint64_t arrays 8-byte, uint32_t arrays 4-byte, byte '
+        'buffers anywhere) and nothing more: no 16-byte alignment is promised '
+        'to the library, as none is documented as required',
         'count >= 1; decoders are called with the original count as capacity; '
         'random-access indices are < count; FOR block windows lie inside the '
         'array',
